@@ -114,7 +114,14 @@ def kind_of(crate, body, role, depth=0):
         return ("call", name)
     if r[0] == "phi":
         ks = {kind_of(crate, body, x, depth) for x in r[1]}
-        return ks.pop() if len(ks) == 1 else ("phi",) + tuple(sorted(ks))
+        if len(ks) == 1:
+            return ks.pop()
+        # a sifting cursor: starts as the queried permutation and is replaced by (itself ; ot[..]^-1) on every level —
+        # by induction it is what the recursive formulation passes down as `p`
+        sift = {("COMP", ("?",), ("INV", ("OT",))), ("COMP", ("P",), ("INV", ("OT",)))}
+        if ("P",) in ks and ks - {("P",)} <= sift:
+            return ("P",)
+        return ("phi",) + tuple(sorted(ks))
     return ("?",)
 
 
@@ -197,7 +204,7 @@ def g1(ctx):
                             name, a, b_, " and ".join("%s.compose(%s)" % e for e in expect), why), where_of(c.body, c.bb))
             if not extra:
                 ctx.bad("convention:%s:missing" % name, "%s no longer contains the composition(s) %s" % (name, missing), where_of(b))
-    ctx.floor("compositions in the stabiliser chain", n, 5 if "explanations" not in (ctx.cur_cfg or "") else 7)
+    ctx.floor("compositions in the stabiliser chain", n, 4 if "explanations" not in (ctx.cur_cfg or "") else 5)
     # orbit-table keys
     b = fn(crate, "build_ot")
     for c in b.calls:
@@ -217,7 +224,7 @@ def g1(ctx):
         ctx.floor("orbit-table lookups in " + name, len(gets), 1)
         for c in gets:
             k = strip_role(b.role_of_operand(c.args[1]))
-            ok = k[0] == "call" and k[1] == "index" and strip_role(k[3][0]) == ("param", "p") and role_mentions_field(k[3][1], "stab")
+            ok = k[0] == "call" and k[1] == "index" and kind_of(crate, b, k[3][0]) == ("P",) and role_mentions_field(k[3][1], "stab")
             ctx.check(ok, "sift-key:" + name, "%s looks up ot[p[stab]]" % name, "%s looks up the orbit table with %s instead of p[stab]" % (name, role_str(k)), where_of(b, c.bb))
         # recursion goes to the stabiliser sub-group with the sifted permutation
         rec = [c for c in b.calls if c.callee and c.callee.target == b.id]
